@@ -338,9 +338,25 @@ def run(ctx: RunCtx) -> None:
             pb, pmd = make_external_location_batch(ptr_schema, url, sha256=hashlib.sha256(blob).hexdigest() if ch.choose(2, "sha") else None)
             sock_raw = build_pointer(spec.name, pb, pmd)
 
+        # history: in half of the runs the same server first serves a VALID call of the same method (anything the server
+        # remembers about accepted requests must not weaken the check of the next one)
+        warm = bool(ch.choose(2, "warm"))
+        valid_raw = build(spec.name, list(decl), [[v] for v in vals])
+        if warm:
+            ch.probe("history:valid-call-first")
+
         def root() -> None:
             conn = s1.make_conn(sched, ctx.ch, tkind, "c", buggify=False)
             s1.serve_conn(sched, server, conn)
+            if warm:
+                conn.client.writer.write(valid_raw)
+                st0, info0 = read_one_stream(conn.client.reader)
+                err0 = st0 != "ok" or any(md.get(b"vgi_rpc.log_level") == b"EXCEPTION" for _, md in info0)
+                if st0 == "ok" and spec.kind != "unary" and not err0:
+                    conn.client.writer.write(empty_input_stream())
+                    read_one_stream(conn.client.reader)
+                out["warm_ok"] = (st0 == "ok") and (not err0 or raised is not None)
+            out["mark"] = len(world.rec)
             conn.client.writer.write(sock_raw)
             st, info = read_one_stream(conn.client.reader)
             is_err = st == "ok" and any(md.get(b"vgi_rpc.log_level") == b"EXCEPTION" for _, md in info)
@@ -361,6 +377,10 @@ def run(ctx: RunCtx) -> None:
             ctx.violation("C06", "no-response", f"socket:{site}", f"{kind}: {detail}: no decodable response ({out.get('st')}, "
                           f"{sched.describe_blocked()})")
             return
+        mark = out.get("mark", mark)
+        if warm and not out.get("warm_ok"):
+            ctx.violation("C06", "conforming-not-dispatched", "socket:warm-up", f"the valid warm-up call of {spec.name} was not answered normally")
+            return
         ctx.log.add("socket", spec.name, kind, detail, out["is_err"], len(invoked_since(mark)))
         if not check_invocation("socket", invoked_since(mark), out["is_err"]):
             return
@@ -371,6 +391,8 @@ def run(ctx: RunCtx) -> None:
             cluster = s2.Cluster(ctx, sched2, svc.protocol, svc.impl_cls, app_kwargs=dict(token_key=b"k" * 32, compression_level=None),
                                  external_config=ext_cfg if route == "external" else None)
             path = f"/{spec.name}" if spec.kind == "unary" else f"/{spec.name}/init"
+            if warm:
+                cluster.deliver(0, "POST", path, valid_raw, {"Content-Type": "application/vnd.apache.arrow.stream"})
             mark = len(world.rec)
             http_raw = sock_raw if route == "external" else raw  # shared memory does not exist over HTTP: that leg goes inline
             res = cluster.deliver(0, "POST", path, http_raw, {"Content-Type": "application/vnd.apache.arrow.stream"})
